@@ -26,8 +26,8 @@ Fixpoint ils_loop (root_stops : bool) (fuel : nat) (tmp : bytes) (index : nat) :
       if is_empty tmp then Ok false else
       match split_from tmp with
       | Ok (l, tail) =>
-          let len := (length l + 1)%nat in
-          if (index <? len)%nat || (root_stops && (len =? 1)%nat) then Ok false
+          let len := (length l + ils_len_add)%nat in
+          if (index <? len)%nat || (root_stops && (len =? ils_root_len)%nat) then Ok false
           else if (index =? len)%nat then Ok true
           else ils_loop root_stops f tail (index - len)
       | _ => Panic 7
@@ -85,7 +85,7 @@ Definition n_parent (absolute : bool) (w : bytes) : outcome (option bytes) :=
   end.
 
 Definition n_into_relative (w : bytes) : outcome bytes :=
-  if (length w <? 1)%nat then Panic 11 else Ok (firstn (length w - 1) w).
+  if (length w <? into_relative_sub)%nat then Panic 11 else Ok (firstn (length w - into_relative_sub) w).
 
 (* RelativeName::into_absolute = into_builder().into_name(); chain_root composes the same octets *)
 Definition n_into_absolute (cap : option nat) (w : bytes) : outcome bytes :=
